@@ -374,7 +374,7 @@ impl Scenario for Decode {
     fn budget(&self, tier: &Tier) -> (u64, u64) {
         match tier {
             Tier::Quick => (1_000_000, 40),
-            Tier::Thorough => (100_000_000, 1500),
+            Tier::Thorough => (100_000_000, 600),
         }
     }
 
